@@ -159,16 +159,9 @@ def showFound : Found → String
   | .noSuchFile => "none"
   | .outside => "outside"
 
-def parseAll : List Name → Option (List Entry)
-  | [] => some []
-  | d :: rest => do
-    let e ← parseEntry d
-    let es ← parseAll rest
-    some (e :: es)
-
 def specFind (root : FsNode) (path : List Name) (name : Name) : String :=
   if name.contains '/' || hasSuffix name dotYang then "na" else
-  match parseAll path with
+  match parsePath path with
   | none => "outside"
   | some es =>
     match Spec.File.choose root.norm es name with
